@@ -9,7 +9,7 @@ open DaliVerif DaliVerif.EventI DaliVerif.AddressI
 
 macro "ev_unfold" : tactic => `(tactic|
   simp only [EventI.device, EventI.deviceInstance, EventI.deviceGroup, EventI.instanceGroup, EventI.inst,
-    EventI.start, EventI.put1410, EventI.put2117, EventI.put90, EventI.light, EventI.done,
+    EventI.start, EventI.put1410, EventI.put2117, EventI.put90, EventI.light, EventI.occ, EventI.done,
     EventI.clr23, EventI.set23, EventI.clr22, EventI.set22, EventI.clr15, EventI.set15,
     AddressI.addDeviceShort, AddressI.ranged, AddressI.fits, AddressI.put])
 
@@ -46,6 +46,24 @@ theorem evLight_instanceGroup_src (info itype g data : Int) :
 theorem evLight_inst_src (info itype inum data : Int) :
     Gen.SrcEvent.evLight_inst info itype inum data = EventI.inst info itype inum (EventI.light data) := by
   unfold Gen.SrcEvent.evLight_inst; ev_unfold; grind
+
+theorem evOcc_device_src (info itype sa data : Int) :
+    Gen.SrcEvent.evOcc_device info itype sa data = EventI.device info itype sa (EventI.occ data) := by
+  unfold Gen.SrcEvent.evOcc_device; ev_unfold; grind (splits := 80)
+theorem evOcc_deviceInstance_src (info itype sa inum data : Int) :
+    Gen.SrcEvent.evOcc_deviceInstance info itype sa inum data =
+      EventI.deviceInstance info inum sa (EventI.occ data) := by
+  unfold Gen.SrcEvent.evOcc_deviceInstance; ev_unfold; grind (splits := 80)
+theorem evOcc_deviceGroup_src (info itype g data : Int) :
+    Gen.SrcEvent.evOcc_deviceGroup info itype g data = EventI.deviceGroup info itype g (EventI.occ data) := by
+  unfold Gen.SrcEvent.evOcc_deviceGroup; ev_unfold; grind (splits := 80)
+theorem evOcc_instanceGroup_src (info itype g data : Int) :
+    Gen.SrcEvent.evOcc_instanceGroup info itype g data =
+      EventI.instanceGroup info itype g (EventI.occ data) := by
+  unfold Gen.SrcEvent.evOcc_instanceGroup; ev_unfold; grind (splits := 80)
+theorem evOcc_inst_src (info itype inum data : Int) :
+    Gen.SrcEvent.evOcc_inst info itype inum data = EventI.inst info itype inum (EventI.occ data) := by
+  unfold Gen.SrcEvent.evOcc_inst; ev_unfold; grind (splits := 80)
 
 
 /-! ## The model's event frames as a function of the translated constructor
@@ -106,5 +124,39 @@ theorem evLight_inst_tie (cls : String) (itype inum v : Nat) :
     Gen.SrcEvent.evLight_inst 0 itype inum v =
       dataOf (Cmd.encode (.event cls itype (.inst inum) (.light v))) := by
   rw [evLight_inst_src, encode_light]; exact inst_model 0 _ _ _ _ (cont_light v)
+
+/-! ### The occupancy event (part 303): `data` given as an integer
+
+For every integer `data` (of any size — the constructor does not range-check it; only its low four bits are
+looked at) the translated constructor yields the frame `Cmd.encode` assigns to the event whose four flags are
+those bits, under every addressing scheme, or the same exception. -/
+theorem encode_occ (cls : String) (itype : Nat) (src : EventSrc) (mv oc rp sm : Bool) :
+    Cmd.encode (.event cls itype src (.occupancy mv oc rp sm)) =
+      (newFrame 24 0).bind (fun f => (eventSrcToFrame f itype src).bind (EventI.occK mv oc rp sm)) := by
+  simp only [Cmd.encode, bind, pure, Except.pure]
+  rfl
+
+/-- the flags an integer `data` stands for (`OccupancyEvent._set_event_data`) -/
+def occOf (cls : String) (itype : Nat) (src : EventSrc) (data : Nat) : Cmd :=
+  .event cls itype src (.occupancy (data &&& 1 == 1) (data &&& 2 == 2) (data &&& 4 == 4) (data &&& 8 == 8))
+
+theorem evOcc_device_tie (cls : String) (itype sa data : Nat) :
+    Gen.SrcEvent.evOcc_device 0 itype sa data = dataOf (Cmd.encode (occOf cls itype (.device sa) data)) := by
+  rw [evOcc_device_src, occOf, encode_occ]; exact device_model 0 _ _ _ _ (cont_occ data)
+theorem evOcc_deviceInstance_tie (cls : String) (itype sa inum data : Nat) :
+    Gen.SrcEvent.evOcc_deviceInstance 0 itype sa inum data =
+      dataOf (Cmd.encode (occOf cls itype (.deviceInstance sa inum) data)) := by
+  rw [evOcc_deviceInstance_src, occOf, encode_occ]; exact deviceInstance_model 0 _ _ _ _ _ (cont_occ data)
+theorem evOcc_deviceGroup_tie (cls : String) (itype g data : Nat) :
+    Gen.SrcEvent.evOcc_deviceGroup 0 itype g data =
+      dataOf (Cmd.encode (occOf cls itype (.deviceGroup g) data)) := by
+  rw [evOcc_deviceGroup_src, occOf, encode_occ]; exact deviceGroup_model 0 _ _ _ _ (cont_occ data)
+theorem evOcc_instanceGroup_tie (cls : String) (itype g data : Nat) :
+    Gen.SrcEvent.evOcc_instanceGroup 0 itype g data =
+      dataOf (Cmd.encode (occOf cls itype (.instanceGroup g) data)) := by
+  rw [evOcc_instanceGroup_src, occOf, encode_occ]; exact instanceGroup_model 0 _ _ _ _ (cont_occ data)
+theorem evOcc_inst_tie (cls : String) (itype inum data : Nat) :
+    Gen.SrcEvent.evOcc_inst 0 itype inum data = dataOf (Cmd.encode (occOf cls itype (.inst inum) data)) := by
+  rw [evOcc_inst_src, occOf, encode_occ]; exact inst_model 0 _ _ _ _ (cont_occ data)
 
 end DaliVerif.Tie.Event
